@@ -90,6 +90,57 @@ def real_edit(rules_dir, rule, opts, copy=None):
     return None
 
 
+def guesses_by_structure(ruledir):
+    """the real guesser on a ruleset: structure string (without the inserted C<n>) -> lengths of all its guesses"""
+    import corr_pq
+    import corr_expand
+    pcfg = common.load_grammar(ruledir, skip_brute=True)
+    out = {}
+    pq = corr_pq.fresh_queue(pcfg)
+    while True:
+        it = pq.next()
+        if it is None:
+            break
+        name = ''.join(t for t, _ in it['pt'] if t[0] != 'C')
+        n, lines, raised = corr_expand.real_create(pcfg, it['pt'], None)
+        out.setdefault(name, set()).update(len(l) for l in lines)
+    return out
+
+
+def guess_level_case(spec, opts, rules_dir):
+    """the length promise on real guesses: generate every guess of the original and of the edited ruleset with the real guesser"""
+    v = []
+    rdir = os.path.join(rules_dir, 'gsrc')
+    common.write_ruleset(rdir, spec)
+    before = guesses_by_structure(rdir)
+    err = real_edit(rules_dir, 'gsrc', opts)
+    if err:
+        return [{'property': 'C20', 'kind': 'edit-raised', 'error': err, 'witness': {'spec': spec, 'options': opts}}]
+    after = guesses_by_structure(rdir)
+    mn, mx = opts['min_length'], opts['max_length']
+    inb = lambda L: L >= mn and (not mx or L <= mx)
+    def cat(st):
+        if 'X' in st:
+            return 'X'
+        # a letter whose upper-casing is longer than one character makes a guess longer than its label says
+        for tok in re.findall('A[0-9]+', st):
+            if any(len(ch.upper()) > 1 for val, _ in spec['terminals'].get(tok, []) for ch in val):
+                return 'case-expansion'
+        return 'other'
+    for st, lens in before.items():
+        ok = all(inb(L) for L in lens)
+        if st in after and not ok:
+            v.append({'property': 'C20', 'kind': 'guess-length-out-of-bounds', 'category': cat(st), 'structure': st,
+                      'possible_lengths': sorted(lens), 'bounds': [mn, mx], 'via': 'real guesses', 'witness': {'spec': spec, 'options': opts}})
+        if st not in after and ok:
+            v.append({'property': 'C20', 'kind': 'removed-although-passing', 'category': cat(st), 'structure': st,
+                      'possible_lengths': sorted(lens), 'bounds': [mn, mx], 'via': 'real guesses', 'witness': {'spec': spec, 'options': opts}})
+    for st in after:
+        if st not in before:
+            v.append({'property': 'C20', 'kind': 'survivor-changed-or-reordered', 'structure': st, 'witness': {'spec': spec, 'options': opts}})
+    return v
+
+
 def run(ctx):
     rng = ctx.rng
     viol, samples, disagreements = [], [], []
@@ -103,7 +154,11 @@ def run(ctx):
     for i in range(ctx.scale(150, 2500)):
         rows = gen_grammar(rng)
         opts = gen_options(rng)
+        # the context-sensitive values of this ruleset (their lengths are what an `X1` label stands for)
+        cvals = rng.sample(CONTEXT_VALUES, rng.randint(1, len(CONTEXT_VALUES)))
+        ctx_lens = {len(v) for v in cvals}
         spec = dict(base_spec, grammar=[[s, p] for s, p in rows])
+        spec['terminals'] = dict(base_spec['terminals'], X1=[[v, '0.2'] for v in cvals])
         rdir = os.path.join(rules_dir, 'src')
         common.write_ruleset(rdir, spec)
         gfile = os.path.join(rdir, 'Grammar', 'grammar.txt')
@@ -132,10 +187,10 @@ def run(ctx):
                 ops.append('er.reok ' + cl.cps(s))
                 exp.append('ok')
         terms = 'none' if not opts['terminal_set'] else cl.cps(''.join(x for x in opts['terminal_set'] if len(x) == 1))
-        ops.append(f"er.edit {opts['min_length']} {opts['max_length']} {terms} {1 if opts['regex'] else 0} {cl.cps(before_text)}")
+        ops.append(f"er.edit {min(ctx_lens)} {max(ctx_lens)} {opts['min_length']} {opts['max_length']} {terms} {1 if opts['regex'] else 0} {cl.cps(before_text)}")
         if err:
             exp.append('raise')
-            viol.append({'property': 'C20', 'kind': 'edit-raised', 'error': err, 'witness': {'rows': rows, 'options': opts}})
+            viol.append({'property': 'C20', 'kind': 'edit-raised', 'error': err, 'witness': {'rows': rows, 'options': opts, 'context_values': cvals}})
             continue
         after_text = open(os.path.join(target, 'Grammar', 'grammar.txt')).read()
         exp.append('text ' + cl.cps(after_text))
@@ -143,19 +198,19 @@ def run(ctx):
         skip = {os.path.join('Grammar', 'grammar.txt')}
         if use_copy:
             if tree_digest(rdir, set()) != before:
-                viol.append({'property': 'C20', 'kind': 'copy-source-modified', 'witness': {'rows': rows, 'options': opts}})
+                viol.append({'property': 'C20', 'kind': 'copy-source-modified', 'witness': {'rows': rows, 'options': opts, 'context_values': cvals}})
             if tree_digest(cdir, skip) != {k: v for k, v in before.items() if k not in skip}:
-                viol.append({'property': 'C20', 'kind': 'other-file-touched', 'witness': {'rows': rows, 'options': opts}})
+                viol.append({'property': 'C20', 'kind': 'other-file-touched', 'witness': {'rows': rows, 'options': opts, 'context_values': cvals}})
         else:
             if tree_digest(rdir, skip) != {k: v for k, v in before.items() if k not in skip}:
-                viol.append({'property': 'C20', 'kind': 'other-file-touched', 'witness': {'rows': rows, 'options': opts}})
+                viol.append({'property': 'C20', 'kind': 'other-file-touched', 'witness': {'rows': rows, 'options': opts, 'context_values': cvals}})
         # oracle 2: survivors = a subsequence of the original lines, byte-identical
         orig_lines = [f"{s}\t{p}" for s, p in rows]
         after_lines = [l for l in after_text.split('\n') if l]
         it = iter(orig_lines)
         if not all(any(a == o for o in it) for a in after_lines):
             viol.append({'property': 'C20', 'kind': 'survivor-changed-or-reordered', 'after': after_lines[:4], 'before': orig_lines[:6],
-                         'witness': {'rows': rows, 'options': opts}})
+                         'witness': {'rows': rows, 'options': opts, 'context_values': cvals}})
             continue
         # oracle 3: removed <=> fails a requested filter; kept => every guess length within bounds
         kept = set()
@@ -183,13 +238,13 @@ def run(ctx):
             if k and 'length' in fails:
                 viol.append({'property': 'C20', 'kind': 'guess-length-out-of-bounds', 'category': 'X' if hasx else 'other',
                              'structure': s, 'possible_lengths': sorted(lens), 'bounds': [mn, mx],
-                             'witness': {'rows': rows, 'options': opts}})
+                             'witness': {'rows': rows, 'options': opts, 'context_values': cvals}})
             elif k and fails:
                 viol.append({'property': 'C20', 'kind': 'kept-although-failing', 'structure': s, 'fails': fails,
-                             'witness': {'rows': rows, 'options': opts}})
+                             'witness': {'rows': rows, 'options': opts, 'context_values': cvals}})
             elif not k and not fails:
                 viol.append({'property': 'C20', 'kind': 'removed-although-passing', 'structure': s, 'category': 'X' if hasx else 'other',
-                             'witness': {'rows': rows, 'options': opts}})
+                             'witness': {'rows': rows, 'options': opts, 'context_values': cvals}})
         dist['has_X'] += int(any('X' in s for s, _ in rows))
         dist['multi_digit'] += int(any(re.search('[0-9]{2,}', s) for s, _ in rows))
         key = (len(rows), sum(flags), okey)
@@ -198,11 +253,31 @@ def run(ctx):
         seen.add(key)
         if len(samples) < 3 and 0 < sum(flags) < len(rows):
             samples.append({'rows': rows, 'options': opts, 'kept': [s for (s, _), k in zip(rows, flags) if k]})
+    # the length promise on real guesses of complete rulesets (every label has its list; X values of 2-5 characters)
+    import gen_rulesets
+    import gen_omen
+    greal = 0
+    for i in range(ctx.scale(20, 200)):
+        gspec = gen_rulesets.gen_ruleset(rng, mode='dyadic', markov=rng.random() < 0.3, max_structs=5, max_pos=3, max_groups=2, max_vals=2,
+                                         omen=gen_omen.gen_omen(rng, ngram=2, nletters=2, maxlen_extra=1), allow_dup_struct=False)
+        gopts = {'min_length': rng.choice([0, 0, 2, 3, 5]), 'max_length': rng.choice([0, 4, 6, 8, 12]), 'terminal_set': False, 'regex': None}
+        if not gopts['min_length'] and not gopts['max_length']:
+            gopts['max_length'] = 7
+        try:
+            viol += guess_level_case(gspec, gopts, rules_dir)
+        except common.ImplFailure:
+            raise
+        greal += 1
+    cases += greal
     # CLI level: the same through edit_rules.py in the snapshot
     cli_runs = 0
     for i in range(ctx.scale(2, 10)):
         rows = gen_grammar(rng)
+        # the context-sensitive values of this ruleset (their lengths are what an `X1` label stands for)
+        cvals = rng.sample(CONTEXT_VALUES, rng.randint(1, len(CONTEXT_VALUES)))
+        ctx_lens = {len(v) for v in cvals}
         spec = dict(base_spec, grammar=[[s, p] for s, p in rows])
+        spec['terminals'] = dict(base_spec['terminals'], X1=[[v, '0.2'] for v in cvals])
         name = f"er{i}"
         d = common.install_ruleset(spec, name)
         snap = common.snapshot()
@@ -230,9 +305,10 @@ def run(ctx):
                     'directory; the resulting grammar.txt is compared with the Lean model, the directory tree is hashed before/after, '
                     'survivors must be a byte-identical subsequence, removed <=> fails a filter, and every possible guess length of a kept '
                     'structure (X contributes the real lengths of the context strings) must lie within the bounds. non-trivial = some but '
-                    'not all structures survive; distinct by (#structures, #kept, options)',
+                    'not all structures survive; distinct by (#structures, #kept, options); plus complete generated rulesets edited with length bounds and '
+                    'every guess of every structure produced by the real guesser before and after (kept <=> all its guesses within the bounds)',
             'samples': samples, 'disagreements': disagreements, 'violations': viol, 'distribution': {k: v for k, v in dist.items() if k != 'kept_fraction'},
-            'extra': {'cli_runs': cli_runs, 'protocol_ops': len(ops)}}
+            'extra': {'cli_runs': cli_runs, 'protocol_ops': len(ops), 'rulesets_with_real_guesses': greal}}
 
 
 def replay(ctx, payload):
@@ -240,7 +316,10 @@ def replay(ctx, payload):
     if 'rows' not in w or 'options' not in w:
         return []
     rules_dir = common.scratch_dir('c20replay')
-    spec = {'terminals': {'X1': [[v, '0.2'] for v in CONTEXT_VALUES], 'D1': [['1', '1.0']]}, 'grammar': [[s, p] for s, p in w['rows']], 'omen_prob': []}
+    if 'spec' in w:
+        return [{'kind': v['kind'], 'structure': v.get('structure')} for v in guess_level_case(w['spec'], w['options'], rules_dir)]
+    cvals = w.get('context_values') or CONTEXT_VALUES
+    spec = {'terminals': {'X1': [[v, '0.2'] for v in cvals], 'D1': [['1', '1.0']]}, 'grammar': [[s, p] for s, p in w['rows']], 'omen_prob': []}
     common.write_ruleset(os.path.join(rules_dir, 'src'), spec)
     err = real_edit(rules_dir, 'src', w['options'])
     if err:
@@ -249,7 +328,7 @@ def replay(ctx, payload):
     mn, mx = w['options']['min_length'], w['options']['max_length']
     out = []
     for s in after:
-        lens = label_lengths(s, {len(v) for v in CONTEXT_VALUES})
+        lens = label_lengths(s, {len(v) for v in cvals})
         if lens and (mn or mx) and any(L < mn or (mx and L > mx) for L in lens):
             out.append({'kind': 'guess-length-out-of-bounds', 'structure': s})
     orig = [s for s, _ in w['rows']]
